@@ -129,6 +129,49 @@ impl Default for EnvSpec {
 }
 
 pub fn build_env(spec: &EnvSpec, seed: u64) -> Result<Env, String> {
+    // Long campaigns open and close hundreds of thousands of loopback connections; while the old ones sit in
+    // TIME_WAIT the machine can run out of local ports ("Address already in use" / "Cannot assign requested
+    // address"). That is the test bed's problem, not a verdict: wait for ports to come back and try again.
+    throttle_on_time_wait();
+    let mut last = String::new();
+    for attempt in 0..90u64 {
+        match build_env_once(spec, seed.wrapping_add(attempt.wrapping_mul(0x9E37_79B9))) {
+            Ok(env) => return Ok(env),
+            Err(e) if e.contains("os error 98") || e.contains("os error 99") || e.contains("Address already in use") || e.contains("assign requested address") => {
+                last = e;
+                std::thread::sleep(Duration::from_secs(1));
+            }
+            Err(e) => return Err(e),
+        }
+    }
+    Err(last)
+}
+
+/// Sockets in TIME_WAIT according to /proc/net/sockstat (None where that file is not available).
+fn time_wait_count() -> Option<u64> {
+    let s = std::fs::read_to_string("/proc/net/sockstat").ok()?;
+    let line = s.lines().find(|l| l.starts_with("TCP:"))?;
+    let mut it = line.split_whitespace();
+    while let Some(w) = it.next() {
+        if w == "tw" {
+            return it.next()?.parse().ok();
+        }
+    }
+    None
+}
+
+/// Paces environment construction so that closed connections can leave TIME_WAIT (60 s) before the
+/// ~28 000 local ports run out. Only a delay: never a verdict.
+fn throttle_on_time_wait() {
+    for _ in 0..240 {
+        match time_wait_count() {
+            Some(tw) if tw > 24_000 => std::thread::sleep(Duration::from_millis(500)),
+            _ => return,
+        }
+    }
+}
+
+fn build_env_once(spec: &EnvSpec, seed: u64) -> Result<Env, String> {
     let rt = tokio::runtime::Builder::new_multi_thread()
         .worker_threads(2)
         .enable_all()
